@@ -596,7 +596,7 @@ func runCase(rec *vstat.Recorder, c Case, bin string) error {
 			}
 			class := fmt.Sprintf("%s:fail-on=%s:sev=%s:fail=%d", c.Kind, orAbsent(r.FailOn), o.sevSet(), failed)
 			if o.Borrowed >= 0 {
-				rec.Count("runs_with_failed_reporter_judged_by_reference_run", 1)
+				rec.Count("runs_judged_by_the_json_of_a_reference_run", 1)
 			}
 			if r.TeamCity {
 				rec.Count("teamcity_reference_runs", 1)
